@@ -39,9 +39,11 @@ def objectives_of(script):
 
 # ---------------------------------------------------------------------------------- C07
 def f42_region(script):
-    """finding F42: with a ConcurrentBuffer the assertions are quantified and z3.Optimize ("optimization with quantified
-    constraints is not supported") may return a non-optimal model; the built-in optimiser is not compared there"""
-    return any(d["op"] == "buffer" and d.get("concurrent", False) for d in script) and \
+    """finding F42: with an accessed buffer the assertions are quantified (ConcurrentBuffer: z3 prints "optimization with
+    quantified constraints is not supported") or range over arrays (NonConcurrentBuffer), and z3.Optimize now and then
+    returns a non-optimal model; the built-in optimiser is not compared there"""
+    # (arrays of a NonConcurrentBuffer have the same effect: thorough tier, every third call of one process)
+    return any(d["op"] == "buffer" for d in script) and \
         any(d["op"] == "constraint" and d["c"][0] in ("loadBuffer", "unloadBuffer") for d in script)
 
 
@@ -784,9 +786,14 @@ def task_pins(real_from, m, real_to, skip=(), smap=None, cmap=None):
                 pins.append(u._duration == m.eval(t._duration, model_completion=True))
     pins.append(real_to.problem._horizon == m.eval(real_from.problem._horizon, model_completion=True))
     sf, st_ = real_from.selects(), real_to.selects()
+    # the flags of a selection say something only where some task requires the selection (on the source side: a selection
+    # left without a task — e.g. because its only task was deleted — has free, meaningless flags)
+    used_from = {id(r) for t in real_from.tasks.values() for r in getattr(t, "_required_resources", [])}
     for i, sel in enumerate(sf):
         j = smap.get(i) if smap is not None else i
         if j is None or j >= len(st_):
+            continue
+        if not any(id(w) in used_from for w in sel.list_of_workers) or not selection_required(real_from, sel):
             continue
         byname = {w.name: f for w, f in st_[j]._selection_dict.items()}
         for w, flag in sel._selection_dict.items():
@@ -799,6 +806,21 @@ def task_pins(real_from, m, real_to, skip=(), smap=None, cmap=None):
             continue
         pins.append(ct[j]._applied == z3.is_true(m.eval(c._applied, model_completion=True)))
     return pins
+
+
+def selection_required(real, sel):
+    """is the count assertion of the selection among the assertions of some task of the problem?"""
+    key = sel._selection_assertion.get_id()
+    return any(a.get_id() == key for t in real.problem.tasks.values() for a in t._z3_assertions
+               ) or any(key in _ids(a) for t in real.problem.tasks.values() for a in t._z3_assertions)
+
+
+def _ids(e, depth=0):
+    out = {e.get_id()}
+    if depth < 6:
+        for c in e.children():
+            out |= _ids(c, depth + 1)
+    return out
 
 
 def block_tasks(real, m, skip=()):
